@@ -393,6 +393,15 @@ class MirFile:
 
     def find_by_callee(self, callee):
         """resolve a call target written as in MIR (e.g. `zig_zag_encode`, `Murmur3PartitionerHasher::rotl64`)"""
+        mt = re.match(r"<(.+) as ([\w:]+)(?:<.*>)?>::(\w+)$", strip_generics(callee))
+        if mt:
+            # `<T as Trait>::method`: the impl block whose source line reads `impl ... Trait for T`
+            ty, tr, meth = mt.group(1).strip(), mt.group(2).split("::")[-1], mt.group(3)
+            for mf in [self] + self.others:
+                hits = [(pos, h) for pos, h in mf.headers if h.split("(")[0].endswith("::" + meth) and impl_line_is(h, tr, ty)]
+                if len(hits) == 1:
+                    return mf.find("^" + re.escape(hits[0][1]) + "$")
+            raise Unsupported(f"trait method {callee!r}: no unique impl found")
         callee = strip_generics(callee)
         last2 = callee.split("::")[-2:]
         name = last2[-1]
@@ -418,6 +427,20 @@ class MirFile:
         if len(hits) != 1:
             raise Unsupported(f"call target {callee!r} resolves to {len(hits)} MIR functions")
         return self.find("^" + re.escape(hits[0][1]) + "$")
+
+
+def impl_line_is(header, trait, ty):
+    mm = re.search(r"<impl at ([^:>]+):(\d+):", header)
+    if not mm:
+        return False
+    for root in ("/repo", "/verif/kani/core", "/verif/kani/drv"):
+        try:
+            line = open(os.path.join(root, mm.group(1))).read().split("\n")[int(mm.group(2)) - 1]
+        except Exception:
+            continue
+        if re.search(r"\bimpl\b.*\b" + re.escape(trait) + r"\b.*\bfor\s+" + re.escape(ty) + r"\b", line):
+            return True
+    return False
 
 
 def strip_generics(s):
@@ -869,6 +892,11 @@ class Interp:
             return self.const_int(ord(m.group(1)), "char")
         if c in self.models.get("__consts__", {}):
             return copy_value(self.models["__consts__"][c])
+        if c.startswith("ZeroSized:") or re.match(r"[\w:<>', ]+ \{\{ .* \}\}$", c):
+            return Opaque("zst:" + c[:60])
+        m = re.match(r"(?:std::result::)?Result::<.*>::Err\((\w+)\)$", c)
+        if m:
+            return Enum(self.const_int(1, "isize"), {1: Tup([Opaque(m.group(1))])}, ENUM_VARIANTS["Result"], "Result")
         ac = self.assoc_const(c)
         if ac is not None:
             return ac
@@ -1028,7 +1056,7 @@ class Interp:
         ev = self.enum_aggregate(p, s, dest_ty)
         if ev is not None:
             return ev
-        m = re.match(r"([\w:<>, ]+?) \{ (.*) \}$", s)
+        m = re.match(r"([\w:<>', ]+?) \{ (.*) \}$", s)
         if m:
             fields = split_top(m.group(2))
             return Tup([self.operand(p, f.split(": ", 1)[1]) for f in fields], m.group(1))
